@@ -4,6 +4,7 @@ import (
 	"bytes"
 	"context"
 	"fmt"
+	"io"
 	"os"
 	"path/filepath"
 	"sort"
@@ -24,17 +25,17 @@ func init() {
 		ID:    "C19",
 		Level: "exploration",
 		Rule: "operation sequences (1-40 steps) through p9p.SFileSys(ufs.NewServer(A)) on export directory A, each step mirrored by the equivalent direct OS call on twin directory B (create = OpenFile(O_CREATE|flags(mode), perm&0777), DMDIR => Mkdir, open = OpenFile(flags(mode)), read/write = ReadAt/WriteAt, wstat = Chmod / Rename within the directory / Truncate, remove = Remove; same process, same umask): " +
-			"tree of <= 6 names in two directory levels; offsets {0,1,len,len+5,4096}; data lengths {0,1,100,70000}; open modes {OREAD,OWRITE,ORDWR,OEXEC} x OTRUNC; perms {0,0400,0600,0644,0755,0777} +- DMDIR; rename onto existing and non-existing names; remove of non-empty directories; truncate up and down; several changes in ONE wstat (rename+truncate, chmod+truncate). " +
+			"tree of <= 6 names in two directory levels; offsets {0,1,len,len+5,4096}; data lengths {0,1,100,70000}; open modes {OREAD,OWRITE,ORDWR,OEXEC} x OTRUNC; perms {0,0400,0600,0644,0755,0777} +- DMDIR; rename onto existing and non-existing names; remove of non-empty directories; truncate up and down; several changes in ONE wstat (rename+truncate, chmod+truncate); up to 3 fids opened OREAD/ORDWR/OEXEC stay open while later steps grow, truncate, rename or remove their file through other fids, and after every step their reads at {0, size/2, size-1, size, previous size, previous size-1} must equal ReadAt on a twin descriptor opened at the same moment. " +
 			"Oracle after every step: success/failure equal on both sides; bytes read through the fid equal the bytes of A's host file at that offset; snapshot(A) == snapshot(B) (names, types, permission bits, sizes, contents); stat and listing obtained through freshly walked fids equal Lstat/ReadDir of A (name, dir bit, mode&0777, length, mtime to the second, qid path = inode). " +
 			"non-trivial = the sequence contains a mutation after which a read or listing is checked; distinct by op-trace hash",
 		Assumptions: []string{
 			"runs as root in the sandbox: permission-denial paths are not reachable and are not observed",
-			"one fid per path at a time (freshly walked for each step), as the statement's 'freshly walked fids' suggests; uid/gid changes are not exercised (they need the host's user database)",
+			"mutations go through freshly walked fids, one per step; up to three fids opened for reading stay open across later steps and are re-read after each; uid/gid changes are not exercised (they need the host's user database)",
 		},
 		Shards:   shards(8, 16),
 		Timeout:  timeouts(12*time.Minute, 90*time.Minute),
 		MinEvals: 300,
-		Required: []string{"op:create", "op:mkdir", "op:open-io", "op:open-trunc", "op:chmod", "op:rename", "op:rename-onto-existing", "op:truncate", "op:truncate-same-fid", "op:multi-wstat", "op:remove", "op:remove-nonempty-dir", "op:same-fid-after-wstat", "stops_with_bound_fids", "snapshots_compared", "stats_compared", "listings_compared", "reads_compared"},
+		Required: []string{"op:create", "op:mkdir", "op:open-io", "op:open-trunc", "op:chmod", "op:rename", "op:rename-onto-existing", "op:truncate", "op:truncate-same-fid", "op:multi-wstat", "op:remove", "op:remove-nonempty-dir", "op:same-fid-after-wstat", "op:held-reader", "held_reader_reads_after_size_change", "stops_with_bound_fids", "snapshots_compared", "stats_compared", "listings_compared", "reads_compared"},
 		Run:      runC19,
 	})
 }
@@ -165,6 +166,51 @@ func runC19Seq(w *mon.W, no int) {
 	mutated := false
 	checked := false
 	held := 0
+	// long-lived readers: fids opened for reading that stay open while later steps change
+	// the file through other fids (growth, truncation, rename, removal); after every step
+	// what they read must equal what a descriptor opened at the same moment on the twin reads
+	type c19reader struct {
+		f    p9p.Fid
+		fb   *os.File
+		rel  string
+		last int64
+	}
+	var readers []*c19reader
+	defer func() {
+		for _, rd := range readers {
+			rd.fb.Close()
+		}
+	}()
+	checkReaders := func() bool {
+		for _, rd := range readers {
+			st, err := rd.fb.Stat()
+			if err != nil {
+				continue
+			}
+			sz := st.Size()
+			for _, off := range []int64{0, sz / 2, sz - 1, sz, rd.last, rd.last - 1} {
+				if off < 0 {
+					continue
+				}
+				ba, bb := make([]byte, 200), make([]byte, 200)
+				na, ea := sess.Read(ctx, rd.f, ba, off)
+				nb, eb := rd.fb.ReadAt(bb, off)
+				if eb == io.EOF {
+					eb = nil
+				}
+				w.Count("held_reader_reads_compared", 1)
+				if sz != rd.last {
+					w.Count("held_reader_reads_after_size_change", 1)
+				}
+				if (ea != nil) != (eb != nil) || (ea == nil && !bytes.Equal(ba[:na], bb[:nb])) {
+					bad("held-reader-differs", "fid %d, opened for reading on %q earlier in the sequence (size then %d, now %d): Read(off=%d) gives %d bytes err=%v, the twin's descriptor opened at the same moment gives %d bytes err=%v", rd.f, rd.rel, rd.last, sz, off, na, ea, nb, eb)
+					return false
+				}
+			}
+			rd.last = sz
+		}
+		return true
+	}
 	steps := 1 + r.Intn(40)
 	for step := 0; step < steps; step++ {
 		w.Eval()
@@ -274,6 +320,17 @@ func runC19Seq(w *mon.W, no int) {
 				mutated = true
 				if !c19sameFidTruncate(w, sess, f, pb, r, &trace, agree) {
 					return
+				}
+				if mode&3 != p9p.OWRITE && len(readers) < 3 && r.Intn(3) == 0 {
+					sz := int64(0)
+					if st, e := fb.Stat(); e == nil {
+						sz = st.Size()
+					}
+					readers = append(readers, &c19reader{f: f, fb: fb, rel: rel, last: sz})
+					trace = append(trace, fmt.Sprintf("(fid %d stays open as a reader of %s)", f, rel))
+					w.Count("op:held-reader", 1)
+					held++
+					break
 				}
 			}
 			if fb != nil {
@@ -472,6 +529,9 @@ func runC19Seq(w *mon.W, no int) {
 				}
 			}
 			sess.Clunk(ctx, f)
+		}
+		if !checkReaders() {
+			return
 		}
 		// snapshots must agree after every step
 		sa, ea := snapshot(A)
